@@ -34,6 +34,18 @@ OBLIGATIONS = [
     op("table", "TABLE", ["Operators[]", "MinusMonadicOperator"], bounds="whole table (concrete)"),
 ]
 
+def fn(name, d, f, bounds, **kw):
+    o = dict(name="fn_" + name, src="funcs.c", include=["function.c"], units=["tempresult.c", "nonzstring.c", "bpemu.c"], stubs=["diag.c"], defs=[d, "STRINGSIZE=16"],
+             functions=["function.c:" + x for x in f], bounds=bounds, unwind=8, unwind_fn={"harness": 70, "FuncBITCNT": 66, "FuncFIRSTBIT": 66, "FuncLASTBIT": 66},
+             assumes=["diag.c stub for the error interface"])
+    o.update(kw); return o
+OBLIGATIONS += [
+    fn("bits", "F_BITS", ["FuncBITCNT", "FuncFIRSTBIT", "FuncLASTBIT"], "all 2^64 integers"),
+    fn("intmisc", "F_INTMISC", ["FuncSGN", "FuncABS", "FuncTOUPPER"], "all 2^64 integers"),
+    fn("str", "F_STR", ["FuncSTRLEN", "FuncCHARFROMSTR", "FuncSUBSTR"], "strings of 0..4 arbitrary characters, any 64-bit position, count -8..8"),
+    fn("domain", "F_DOMAIN", ["FuncSQRT", "FuncASIN", "FuncACOS", "FuncLN", "FuncLOG", "FuncLD", "FuncACOSH", "FuncSGN"], "all non-NaN doubles (domain guards only; libm results arbitrary)",
+       allow_nobody=["sqrt", "asin", "acos", "log", "log10", "acosh", "fabs", "floor"]),
+]
 META = dict(
     outside=["operator split / ranks inside EvalStrExpression (string recursion does not finish under symex)",
              "shift counts outside 0..63; sign handling of >> on negative operands (manual: logical, code: arithmetic)",
